@@ -65,11 +65,11 @@ func stressSyncMap(plan []M, out *Out, _ []string) {
 			}
 			// quiescent read-back
 			for k := 1; k <= nk; k++ {
-				v, ok := m.Load(k)
-				all = append(all, M{"ev": "inv", "t": 9, "op": "Load", "k": k, "v": 0}, M{"ev": "ret", "t": 9, "rv": v, "rok": ok, "rep": []int{}})
+				v, ok := m.Load(mapKey(k))
+				all = append(all, M{"ev": "inv", "t": 9, "op": "Load", "k": k, "v": 0}, M{"ev": "ret", "t": 9, "rv": mapRet(v, ok, false), "rok": ok, "rep": []int{}})
 			}
 			rep := []int{}
-			m.Range(func(k, v int) bool { rep = append(rep, k, v); return true })
+			m.Range(func(k, v int) bool { rep = append(rep, k+1, mapValID(v)); return true })
 			all = append(all, M{"ev": "inv", "t": 9, "op": "Range", "k": 0, "v": 0}, M{"ev": "ret", "t": 9, "rv": 0, "rok": false, "rep": rep})
 			out.Emit(M{"ev": "hist", "plan": 0, "ex": r, "free": true, "deadlock": false, "blocked": false, "choices": []int{}, "h": all})
 		}
@@ -94,7 +94,7 @@ func stressSyncSet(plan []M, out *Out, _ []string) {
 					rng := rand.New(rand.NewSource(int64(num(p, "seed")*100000 + r*100 + t)))
 					<-start
 					for i := 0; i < nops; i++ {
-						k := 1 + rng.Intn(nk)
+						k := rng.Intn(nk)
 						switch rng.Intn(7) {
 						case 0:
 							st.Add(k)
